@@ -79,6 +79,7 @@ func genC15(t *rapid.T) CaseC15 {
 		g := VGen{Keys: []string{"a", "b", "k", "list", "", "-a", "#text", "a.b", "x[0]", "*"}, Nulls: true, StringGen: func(t *rapid.T, l string) string { return rapid.SampledFrom(scalarStrings).Draw(t, l) }}
 		c.Map = g.Map(t, 3)
 		c.Path, c.Sub, c.Pair, c.NewVal = genArgString(t, "path"), genArgString(t, "sub"), genArgString(t, "pair"), genArgString(t, "newval")
+		c.Option = rapid.SampledFrom([]string{"", "", "", "attr-prefix-long", "no-prefix", "dot-notation", "separator", "array-size"}).Draw(t, "qoption")
 		return c
 	}
 	c.Kind = rapid.SampledFrom([]string{"xml", "xml", "xml", "json", "gob"}).Draw(t, "kind")
@@ -177,6 +178,14 @@ func applyDecoderOption(opt string) {
 		mxj.SetGlobalKeyMapPrefix("$")
 	case "xmpp":
 		mxj.HandleXMPPStreamTag(true)
+	case "attr-prefix-long":
+		mxj.SetAttrPrefix("attr_")
+	case "dot-notation":
+		mxj.LeafUseDotNotation(true)
+	case "separator":
+		mxj.SetFieldSeparator("::")
+	case "array-size":
+		mxj.SetArraySize(33)
 	case "cast-int":
 		mxj.CastValuesToInt(true)
 	case "cast-nobool-nofloat":
@@ -367,6 +376,8 @@ func checkC15args(c CaseC15, info *Info) *Failure {
 	if c.Map == nil {
 		c.Map = map[string]interface{}{}
 	}
+	applyDecoderOption(c.Option)
+	info.ClassIf(c.Option != "", "non-default query option")
 	m := mxj.Map(copyMap(c.Map))
 	m.ValuesForPath(c.Path)
 	m.ValuesForPath(c.Path, c.Sub)
@@ -388,7 +399,11 @@ func checkC15args(c CaseC15, info *Info) *Failure {
 	m.LeafNodes()
 	m.LeafNodes(true)
 	m.LeafPaths()
+	m.LeafPaths(true)
 	m.LeafValues()
+	m.LeafValues(true)
+	m.Root()
+	m.StringIndent()
 	if !reflect.DeepEqual(map[string]interface{}(m), c.Map) {
 		return failf("query-modified-map", "a query with path %q sub %q pair %q changed %s into %s", c.Path, c.Sub, c.Pair, canon(c.Map), canon(m))
 	}
